@@ -244,6 +244,8 @@ def oracle(ops, outs):
             if out == "err none":
                 if rfc_min_len(pn, la) is not None:
                     bad.append((i, "pn:truncate-none-unexpected", f"{op}: a {rfc_min_len(pn, la)}-byte encoding exists, implementation returned None"))
+            elif out == "err eof":
+                bad.append((i, "pn:dec-len-bits", f"{op}: the emitted bytes could not be decoded with the emitted length bits"))
             elif o[0] == "ok" and len(o) == 4:
                 nbytes, hx, got = int(o[1]), o[2], int(o[3])
                 if not _check_trunc(op, pn, la, nbytes, None, hx, None, bad, i):
@@ -261,6 +263,9 @@ def oracle(ops, outs):
                 bad.append((i, "pn:malformed-output", f"{op} -> {out}"))
         elif t[0] == "expand":
             nb, v, L = int(t[1]), int(t[2]), int(t[3])
+            if out == "err eof":
+                bad.append((i, "pn:dec-len-bits", f"{op}: {nb} bytes announced by length bits {nb - 1} were not accepted as a {nb}-byte packet number"))
+                continue
             if o[0] != "ok" or len(o) != 2:
                 bad.append((i, "pn:malformed-output", f"{op} -> {out}"))
                 continue
